@@ -116,6 +116,24 @@ def shard(args):
                         acc.failure("C11:narrow_columns_raises_other:" + type(ex).__name__, {"f": C.show_spec(spec), "columns": columns}, repr(ex))
                 if C.snapshot(f) != snap:
                     acc.failure("C11:operand_changed", {"f": C.show_spec(spec)}, "")
+    # values whose runs are the same objects repeated (f*2, f+f, join)
+    j = 0
+    for n in range(1, 4 if not thorough else 5):
+        for t in itertools.product(sigma, repeat=n):
+            for spec in C.cuts("".join(t), max_runs=2):
+                for how in C.REPEAT_HOWS:
+                    j += 1
+                    if j % nshards != idx:
+                        continue
+                    f, fc = C.build_repeated(spec, how)
+                    if C.cells(f) != fc:
+                        acc.failure("harness:repeated_value", {"f": C.show_spec(spec), "how": how}, "")
+                        continue
+                    for columns in range(2, maxcol + 1):
+                        case = {"f": C.show_spec(spec), "value": how, "columns": columns}
+                        acc.case(True, key=("rep", spec, how, columns), sample=case)
+                        acc.transitions += 1
+                        check(acc, f, fc, columns, case)
     return acc.export()
 
 
@@ -128,7 +146,7 @@ def run(ctx):
     maxlen, maxcol = (6, 7) if ctx.thorough else (5, 5)
     rep.rule = (
         "every string over {a, fullwidth E, combining grave} of length <= %d cut into <= 3 runs (empty runs included, P3; 2 runs at length 6), "
-        "columns 2..%d and the invalid 1, 0, -1. Distinct by construction; non-trivial = the text is wider than the column limit; states = "
+        "columns 2..%d and the invalid 1, 0, -1; plus values whose runs are the same objects repeated (f*2, f+f, f.join([f,f])) for texts up to 3 (4). Distinct by construction; non-trivial = the text is wider than the column limit; states = "
         "distinct results" % (maxlen, maxcol)
     )
     rep.assumptions = ["placement of zero-width characters at a line break is free", "the zero-run value is outside the quantifier"]
@@ -138,6 +156,6 @@ def run(ctx):
 def replay(ctx, case):
     acc = Acc()
     spec = tuple((t, tuple(sorted(a.items()))) for t, a in case["f"])
-    f = C.build(spec)
+    f = C.build(spec) if "value" not in case else C.build_repeated(spec, case["value"])[0]
     check(acc, f, C.cells(f), case["columns"], case)
     return [(s, e["cases"][0]["message"]) for s, e in acc.fail.items()]
